@@ -216,6 +216,9 @@ def run(repo: Repo, rep: Report):
     _check_cmd_seq(repo, rep)
     _check_builders(repo, rep)
     _check_round(repo, rep)
+    # the arc -> cubic replacement itself (structure of arc_to_cubic.py; rules of C12)
+    from sa.rules import c12
+    c12.run(repo, rep, with_callback=False)
 
 
 # ------------------------------------------------------------------------------------------
